@@ -33,6 +33,9 @@ pub struct IoPlan {
     pub stdout_short_writes: Option<(u64, usize)>,
     /// Benign: every n-th write to fd 1 fails with EINTR first.
     pub stdout_eintr_every: Option<u32>,
+    /// Benign: the monotonic clock jumps forward (a stalled machine, a suspended process): seed; on
+    /// average every 40th reading of the clock by a managed thread adds 0.3 .. 3.3 s.
+    pub clock_jumps: Option<u64>,
 }
 
 #[derive(Debug, Default, Clone)]
@@ -77,6 +80,41 @@ static IO: Mutex<Option<IoState>> = Mutex::new(None);
 static INPUT_TOTAL: std::sync::atomic::AtomicU64 = std::sync::atomic::AtomicU64::new(0);
 static INPUT_AT_STOP: std::sync::atomic::AtomicU64 = std::sync::atomic::AtomicU64::new(u64::MAX);
 
+/// Accumulated forward skew of the monotonic clock (ns), state of its generator, number of jumps.
+static CLOCK_SKEW_NS: std::sync::atomic::AtomicU64 = std::sync::atomic::AtomicU64::new(0);
+static CLOCK_RNG: std::sync::atomic::AtomicU64 = std::sync::atomic::AtomicU64::new(0);
+static CLOCK_JUMPS: std::sync::atomic::AtomicU64 = std::sync::atomic::AtomicU64::new(0);
+
+/// Skew to add to a reading of the monotonic clock by a managed thread (0 when the fault is off).
+/// Lock-free; managed threads run one at a time, so the sequence of readings is deterministic.
+pub fn clock_skew_ns() -> u64 {
+    use std::sync::atomic::Ordering::SeqCst;
+    let mut x = CLOCK_RNG.load(SeqCst);
+    if x == 0 {
+        return 0;
+    }
+    // xorshift64
+    x ^= x << 13;
+    x ^= x >> 7;
+    x ^= x << 17;
+    CLOCK_RNG.store(x, SeqCst);
+    if x % 40 == 0 {
+        let jump = 300_000_000 + (x >> 8) % 3_000_000_000;
+        CLOCK_SKEW_NS.fetch_add(jump, SeqCst);
+        CLOCK_JUMPS.fetch_add(1, SeqCst);
+    }
+    CLOCK_SKEW_NS.load(SeqCst)
+}
+
+/// Switch the clock fault off (end of run: the runtime's own deadlines must see real time).
+pub fn stop_clock_fault() {
+    CLOCK_RNG.store(0, std::sync::atomic::Ordering::SeqCst);
+}
+
+pub fn clock_jumps_fired() -> u64 {
+    CLOCK_JUMPS.load(std::sync::atomic::Ordering::SeqCst)
+}
+
 /// Called by the scheduler at the step that performs the signal handler's store.
 pub fn mark_stop() {
     use std::sync::atomic::Ordering::SeqCst;
@@ -108,6 +146,9 @@ fn lock_io() -> std::sync::MutexGuard<'static, Option<IoState>> {
 }
 
 pub fn begin(plan: IoPlan) {
+    CLOCK_SKEW_NS.store(0, std::sync::atomic::Ordering::SeqCst);
+    CLOCK_JUMPS.store(0, std::sync::atomic::Ordering::SeqCst);
+    CLOCK_RNG.store(plan.clock_jumps.map(|s| s | 1).unwrap_or(0), std::sync::atomic::Ordering::SeqCst);
     INPUT_TOTAL.store(0, std::sync::atomic::Ordering::SeqCst);
     INPUT_AT_STOP.store(u64::MAX, std::sync::atomic::Ordering::SeqCst);
     let mut g = lock_io();
